@@ -80,6 +80,44 @@ def c07a(ctx):
                 ctx.fail(o, Site(b, rb, 0), "%s returns while still owning a write batch" % tag)
 
 
+def c07a_columns(ctx):
+    """Every publication writes the complete set of columns that make up a node, on every path."""
+    prog = ctx.prog
+    want = {
+        "Snapshot::set_computed": ["node_info", "query_kind", "last_verified", "forward_edge_order", "forward_edge_observation", "query_store", "query_store"],
+        "Snapshot::set_computed_input": ["last_verified", "forward_edge_order", "forward_edge_observation", "node_info", "query_store", "query_store"],
+        "Snapshot::clean_query": ["last_verified"],
+    }
+    for fn, cols in want.items():
+        o = ctx.ob("C07.a", "%s/writes-every-column-of-the-node" % fn.split("::")[1], "K2", "a publication stores all parts of the node on every path (a missing column is only noticed after a restart or an eviction)")
+        b = ctx.touch(prog.coroutine_of(fn))
+        ws = []
+        for s in b.calls(lambda f, t: bool(MAP_WRITE.search(f["path"])) and f["path"].endswith("::insert")):
+            ap = df.access_path(b, s.node["args"][0])
+            col = [f for f in ap if f in COLUMN_FIELDS]
+            if col:
+                ws.append((col[-1], s))
+        o.sites = len(ws)
+        need = {}
+        for c in cols:
+            need[c] = need.get(c, 0) + 1
+        for c, k in need.items():
+            sites = [s for cc, s in ws if cc == c]
+            # unconditional = on every path from entry to return
+            uncond = [s for s in sites if not b.must_pass([0], [s.bb])]
+            if len(uncond) < k:
+                ctx.fail(o, Site(b, 0, 0), "%s does not insert into Database::%s on every path (%d of %d required writes are unconditional): after a restart / eviction the node is "
+                         "incomplete (e.g. a value without its kind or its dependency list)" % (fn, c, len(uncond), k))
+        # the two query_store writes are input and result
+        qs = [s for cc, s in ws if cc == "query_store"]
+        kinds = set()
+        for s in qs:
+            g = " ".join(s.node["fn"].get("gargs", []))
+            kinds.add("QueryInput" if "QueryInput" in g else "QueryResult" if "QueryResult" in g else g)
+        if "query_store" in need and not {"QueryInput", "QueryResult"} <= kinds:
+            ctx.fail(o, Site(b, 0, 0), "%s must store both the query input and the query result (found %s)" % (fn, sorted(kinds)))
+
+
 def c07c(ctx):
     prog = ctx.prog
     o = ctx.ob("C07.c", "Database-drop/takes-and-waits-all-fields", "K10+K2", "Drop for Database drains every ManuallyDrop field (incl. the write manager inside `sync`) and waits for all drop tasks")
@@ -226,6 +264,7 @@ def c07e(ctx):
 def run(ctx):
     from . import C10
     ctx.run_clause("C07.a", c07a)
+    ctx.run_clause("C07.a", c07a_columns)
     ctx.alias = {"C10.e": "C07.b"}
     ctx.run_clause("C07.b", C10.c10e)
     ctx.alias = {}
